@@ -243,34 +243,32 @@ def errStep (l : Layer) (o : TcpOption) (trunc : Bool) : Step :=
 
 /-! ## MPTCP sub-options (tcp.go:354-533) -/
 
+/-- `if c { x = data[a:b] }` (x stays nil otherwise) -/
+def sliceIf (c : Bool) (data : Sl) (a b : Nat) : Res Bytes :=
+  if c then (do let s ← data.slice a b; pure s.vis) else .ok []
+
+/-- `if c { x = binary.BigEndian.Uint16(data[a:b]) }` (x stays 0 otherwise) -/
+def u16If (c : Bool) (data : Sl) (a b : Nat) : Res Nat :=
+  if c then (do let s ← data.slice a b; u16 s) else .ok 0
+
+/-- `if c { x = binary.BigEndian.Uint32(data[a:b]) }` -/
+def u32If (c : Bool) (data : Sl) (a b : Nat) : Res Nat :=
+  if c then (do let s ← data.slice a b; u32 s) else .ok 0
+
 def mpCapableOpt (l : Layer) (opt : TcpOption) (data : Sl) (n : Nat) (b2 : UInt8) : Res Step :=
   if n ≠ optionLenMpCapableSyn ∧ n ≠ optionLenMpCapableSynAck ∧ n ≠ optionLenMpCapableAck ∧
       n ≠ optionLenMpCapableAckData ∧ n ≠ optionLenMpCapableAckDataCSum then
     .ok (errStep l opt false)
   else do
     let b3 ← data.idx 3
-    let c0 : MPCapable :=
-      { version := b2.toNat % 16, a := bit b3 128, b := bit b3 64, c := bit b3 32, d := bit b3 16,
-        e := bit b3 8, f := bit b3 4, g := bit b3 2, h := bit b3 1 }
-    let c1 ← if n ≥ optionLenMpCapableSynAck then do
-                let s ← data.slice 4 12
-                pure { c0 with sendKey := s.vis }
-              else pure c0
-    let c2 ← if n ≥ optionLenMpCapableAck then do
-                let s ← data.slice 12 20
-                pure { c1 with receivKey := s.vis }
-              else pure c1
-    let c3 ← if n ≥ optionLenMpCapableAckData then do
-                let s ← data.slice 20 22
-                let x ← u16 s
-                pure { c2 with dataLength := x }
-              else pure c2
-    let c4 ← if n = optionLenMpCapableAckDataCSum then do
-                let s ← data.slice 22 24
-                let x ← u16 s
-                pure { c3 with checksum := x }
-              else pure c3
-    pure (.cont (pushOpt l { opt with mpCapable := some c4 }) n)
+    let sk ← sliceIf (n ≥ optionLenMpCapableSynAck) data 4 12
+    let rk ← sliceIf (n ≥ optionLenMpCapableAck) data 12 20
+    let dl ← u16If (n ≥ optionLenMpCapableAckData) data 20 22
+    let ck ← u16If (n = optionLenMpCapableAckDataCSum) data 22 24
+    pure (.cont (pushOpt l { opt with mpCapable := some {
+      version := b2.toNat % 16, a := bit b3 128, b := bit b3 64, c := bit b3 32, d := bit b3 16,
+      e := bit b3 8, f := bit b3 4, g := bit b3 2, h := bit b3 1,
+      sendKey := sk, receivKey := rk, dataLength := dl, checksum := ck } }) n)
 
 def mpJoinOpt (l : Layer) (opt : TcpOption) (data : Sl) (n : Nat) (b2 : UInt8) : Res Step :=
   if n ≠ optionLenMpJoinSyn ∧ n ≠ optionLenMpJoinSynAck ∧ n ≠ optionLenMpJoinAck then
@@ -311,38 +309,21 @@ def dssOpt (v : Variant) (l : Layer) (opt : TcpOption) (data : Sl) (n : Nat) : R
     if n ≠ optionMptcpDsslen d0 false ∧ n ≠ optionMptcpDsslen d0 true then
       pure (errStep l opt false)
     else do
-      let lenOpt := 4
-      let (d1, lenOpt) ←
-        (if d0.fA then
-          if d0.fa then do
-            let s ← data.slice lenOpt (lenOpt + optionLenDssAck64)
-            pure ({ d0 with dataAck := s.vis }, lenOpt + optionLenDssAck64)
-          else do
-            let s ← data.slice lenOpt (lenOpt + optionLenDssAck)
-            pure ({ d0 with dataAck := s.vis }, lenOpt + optionLenDssAck)
-        else pure (d0, lenOpt) : Res (Dss × Nat))
-      if d0.fM then do
-        let (d2, lenOpt) ←
-          (if d0.fm then do
-            let s ← data.slice lenOpt (lenOpt + optionLenDssDSN64)
-            pure ({ d1 with dsn := s.vis }, lenOpt + optionLenDssDSN64)
-          else do
-            let s ← data.slice lenOpt (lenOpt + optionLenDssDSN)
-            pure ({ d1 with dsn := s.vis }, lenOpt + optionLenDssDSN) : Res (Dss × Nat))
-        let s ← data.slice lenOpt (lenOpt + optionLenDssSSN)
-        let ssn ← u32 s
-        let lenOpt := lenOpt + optionLenDssSSN
-        let s ← data.slice lenOpt (lenOpt + optionLenDssDataLen)
-        let dl ← u16 s
-        let lenOpt := lenOpt + optionLenDssDataLen
-        let d3 := { d2 with ssn := ssn, dataLength := dl }
-        -- `opt.OptionLength-lenOpt == 2` in uint8 arithmetic
-        if (n + 256 - lenOpt % 256) % 256 = 2 then do
-          let s ← data.slice lenOpt (lenOpt + optionLenDssCSum)
-          let ck ← u16 s
-          pure (.cont (pushOpt l { opt with dss := some { d3 with checksum := ck } }) n)
-        else pure (.cont (pushOpt l { opt with dss := some d3 }) n)
-      else pure (.cont (pushOpt l { opt with dss := some d1 }) n)
+      -- var lenOpt uint8 = 4; the nested ifs of tcp.go:418-442 as guarded reads in the same order
+      let ackLen := if d0.fA then (if d0.fa then optionLenDssAck64 else optionLenDssAck) else 0
+      let da ← sliceIf d0.fA data 4 (4 + ackLen)
+      let p := 4 + ackLen
+      let dsnLen := if d0.fm then optionLenDssDSN64 else optionLenDssDSN
+      let dsn ← sliceIf d0.fM data p (p + dsnLen)
+      let p2 := p + dsnLen
+      let ssn ← u32If d0.fM data p2 (p2 + optionLenDssSSN)
+      let p3 := p2 + optionLenDssSSN
+      let dl ← u16If d0.fM data p3 (p3 + optionLenDssDataLen)
+      let p4 := p3 + optionLenDssDataLen
+      -- `opt.OptionLength-lenOpt == 2` in uint8 arithmetic
+      let ck ← u16If (d0.fM && (n + 256 - p4 % 256) % 256 == 2) data p4 (p4 + optionLenDssCSum)
+      pure (.cont (pushOpt l { opt with dss := some {
+        d0 with dataAck := da, dsn := dsn, ssn := ssn, dataLength := dl, checksum := ck } }) n)
 
 /-- tcp.go isValidOptionMptcpAddAddrlen (length is a uint8: the subtraction wraps) -/
 def isValidOptionMptcpAddAddrlen (length ver : Nat) (hmac : Bool) : Bool :=
@@ -361,32 +342,21 @@ def addAddrOpt (l : Layer) (opt : TcpOption) (data : Sl) (n : Nat) (b2 : UInt8) 
   let bitE := if low > 1 then false else bit b2 1
   if !isValidOptionMptcpAddAddrlen n ver bitE then .ok (errStep l opt false) else do
     let b3 ← data.idx 3
-    let (aa, lenOpt) ←
-      (if ver = mptcpVersion0 then
-        pure ({ ipVer := low, addrID := b3.toNat : AddAddr }, n)
-      else
-        let aa : AddAddr := { e := bit b2 1, addrID := b3.toNat }
-        if !aa.e then do
-          let s ← data.sliceFrom ((n + 256 - 8) % 256)
-          pure ({ aa with sendHMAC := s.vis }, (n + 256 - optionLenAddAddrHmac) % 256)
-        else pure (aa, n) : Res (AddAddr × Nat))
-    if lenOpt = optionLenAddAddrv4 then do
-      let s ← data.slice 4 8
-      pure (.cont (pushOpt l { opt with addAddr := some { aa with address := s.vis } }) n)
-    else if lenOpt = optionLenAddAddrv4 + optionLenAddAddrPort then do
-      let s ← data.slice 4 8
-      let ps ← data.slice 8 10
-      let p ← u16 ps
-      pure (.cont (pushOpt l { opt with addAddr := some { aa with address := s.vis, port := p } }) n)
-    else if lenOpt = optionLenAddAddrv6 then do
-      let s ← data.slice 4 20
-      pure (.cont (pushOpt l { opt with addAddr := some { aa with address := s.vis } }) n)
-    else if lenOpt = optionLenAddAddrv6 + optionLenAddAddrPort then do
-      let s ← data.slice 4 20
-      let ps ← data.slice 20 22
-      let p ← u16 ps
-      pure (.cont (pushOpt l { opt with addAddr := some { aa with address := s.vis, port := p } }) n)
-    else pure (.cont (pushOpt l { opt with addAddr := some aa }) n)
+    -- version 1 without the echo flag carries a truncated HMAC: `data[opt.OptionLength-8:]`
+    let hmac : Bool := ver == mptcpVersion1 && !bit b2 1
+    let hm ← (if hmac then (do let s ← data.sliceFrom ((n + 256 - 8) % 256); pure s.vis) else .ok [] : Res Bytes)
+    let lenOpt := if hmac then (n + 256 - optionLenAddAddrHmac) % 256 else n
+    let is4 : Bool := lenOpt == optionLenAddAddrv4 || lenOpt == optionLenAddAddrv4 + optionLenAddAddrPort
+    let is6 : Bool := lenOpt == optionLenAddAddrv6 || lenOpt == optionLenAddAddrv6 + optionLenAddAddrPort
+    let addr ← (if is4 then sliceIf true data 4 8 else sliceIf is6 data 4 20 : Res Bytes)
+    let p4 ← u16If (lenOpt == optionLenAddAddrv4 + optionLenAddAddrPort) data 8 10
+    let p6 ← u16If (lenOpt == optionLenAddAddrv6 + optionLenAddAddrPort) data 20 22
+    let aa : AddAddr :=
+      if ver = mptcpVersion0 then { ipVer := low, addrID := b3.toNat }
+      else { e := bit b2 1, addrID := b3.toNat }
+    pure (.cont (pushOpt l { opt with addAddr := some {
+      aa with sendHMAC := hm, address := addr,
+              port := if lenOpt == optionLenAddAddrv4 + optionLenAddAddrPort then p4 else p6 } }) n)
 
 /-- `for n = 0; n < k; n++ { addrIds = append(addrIds, data[i+n]) }` -/
 def readIds (data : Sl) : Nat → Nat → Res Bytes
